@@ -7,6 +7,7 @@ import (
 	"encoding/hex"
 	"fmt"
 	"sort"
+	"strings"
 	"testing/synctest"
 
 	"verif/simkit"
@@ -104,6 +105,7 @@ func sortedKeysWithPrefix(st map[string][]byte, prefix string, reverse bool) []s
 
 type proc struct {
 	fs      *vfs.MemFS
+	cfs     *crashFS
 	db      *pebble.DB
 	st      *store.Store
 	log     *simkit.Logger
@@ -112,14 +114,14 @@ type proc struct {
 }
 
 func (s *sim) open(fs *vfs.MemFS) *proc {
-	p := &proc{fs: fs, log: &simkit.Logger{}, memSize: s.memSize}
+	p := &proc{fs: fs, cfs: newCrashFS(fs), log: &simkit.Logger{}, memSize: s.memSize}
 	cfg := lib.DefaultConfig()
 	cfg.StoreConfig.LSSCompactionInterval = 0 // background compaction is driven explicitly as an operation
 	cfg.StoreConfig.BackupInterval = 0
 	cfg.IndexByAccount = true
 	cache := pebble.NewCache(8 << 20)
 	defer cache.Unref()
-	opts := store.VerifPebbleOptions(cfg, fs, p.log, p.memSize, cache)
+	opts := store.VerifPebbleOptions(cfg, p.cfs, p.log, p.memSize, cache)
 	db, err := pebble.Open("data", opts)
 	if err != nil {
 		s.c.ReportFor("C09", "reopen", "pebble-open-failed", fmt.Sprintf("pebble.Open on (crash) image failed: %v", err))
@@ -283,16 +285,17 @@ type sim struct {
 	useMined bool
 	// crash bookkeeping
 	durableFloor uint64 // heights <= this must survive any crash
+	charge       string
 	w            weights
 }
 
 type weights struct {
-	set, del, get, iter, begin, flushTxn, discardTxn, commit, specRoot, copy_, hist, dbflush, compact, reopen, crash, rollback, proof, reset int
+	set, del, get, iter, begin, flushTxn, discardTxn, commit, specRoot, copy_, hist, dbflush, compact, reopen, crash, rollback, proof, reset, pendNested int
 }
 
 func weightsFor(prop string) weights {
 	w := weights{set: 30, del: 8, get: 8, iter: 6, begin: 3, flushTxn: 3, discardTxn: 2, commit: 8, specRoot: 2, copy_: 1, hist: 4,
-		dbflush: 2, compact: 1, reopen: 1, crash: 0, rollback: 0, proof: 0, reset: 1}
+		dbflush: 2, compact: 1, reopen: 1, crash: 0, rollback: 0, proof: 0, reset: 1, pendNested: 1}
 	switch prop {
 	case "C08":
 		w.set, w.del, w.commit, w.specRoot, w.get, w.iter, w.hist = 45, 12, 8, 3, 1, 1, 1
@@ -300,7 +303,7 @@ func weightsFor(prop string) weights {
 		w.crash, w.commit, w.dbflush, w.compact, w.reopen, w.rollback = 5, 12, 3, 2, 1, 1
 		w.get, w.iter, w.hist = 2, 2, 2
 	case "C10":
-		w.get, w.iter, w.hist, w.copy_, w.rollback, w.begin = 14, 12, 10, 3, 1, 5
+		w.get, w.iter, w.hist, w.copy_, w.rollback, w.begin, w.pendNested = 14, 12, 10, 3, 1, 5, 4
 	case "C16":
 		w.proof, w.commit = 12, 10
 	}
@@ -327,13 +330,24 @@ func Run(c *simkit.Ctx) {
 	c.Logf("config memtable=%d mined=%v keys=%d ops=%d bigBatch=%v", s.memSize, s.useMined, len(s.dom.keys), nOps, bigBatch)
 	s.p = s.open(vfs.NewCrashableMem())
 	defer func() { s.shutdown() }()
+	// a panic escaping the store on a valid operation sequence is a failure of the property under
+	// check (the store did not behave like the reference model), not a harness error
+	defer func() {
+		if r := recover(); r != nil {
+			if simkit.IsSimPanic(r) {
+				panic(r)
+			}
+			s.c.Logf("store API panicked: %v", r)
+			s.c.Report("no-panic", "store-api-panic", fmt.Sprintf("the store panicked on a valid operation sequence: %v", r))
+		}
+	}()
 
 	w := s.w
 	for i := 0; i < nOps; i++ {
 		c.Step()
 		depth := len(s.p.nested)
 		wt := []int{w.set, w.del, w.get, w.iter, w.begin, w.flushTxn, w.discardTxn, w.commit, w.specRoot, w.copy_, w.hist,
-			w.dbflush, w.compact, w.reopen, w.crash, w.rollback, w.proof, w.reset}
+			w.dbflush, w.compact, w.reopen, w.crash, w.rollback, w.proof, w.reset, w.pendNested}
 		if depth == 0 {
 			wt[5], wt[6] = 0, 0
 		} else {
@@ -343,7 +357,7 @@ func Run(c *simkit.Ctx) {
 			}
 		}
 		if depth >= 3 {
-			wt[4] = 0
+			wt[4], wt[18] = 0, 0
 		}
 		if bigBatch && depth == 0 && len(s.m.stack[0]) < 20 {
 			wt[7] /= 4
@@ -385,6 +399,8 @@ func Run(c *simkit.Ctx) {
 			s.opProof()
 		case 17:
 			s.opReset()
+		case 18:
+			s.opPendingNested()
 		}
 		if c.Bubble {
 			synctest.Wait()
@@ -409,7 +425,12 @@ func (s *sim) shutdown() {
 	}
 }
 
+// fail reports an oracle failure. While a restart/crash verification is in progress (s.charge set)
+// every state mismatch is a failure of the crash-consistency property, whatever oracle saw it.
 func (s *sim) fail(prop, oracle, sig, format string, a ...any) {
+	if s.charge != "" && prop != s.charge {
+		oracle, prop = "reopen-"+oracle, s.charge
+	}
 	s.c.ReportFor(prop, oracle, sig, fmt.Sprintf(format, a...))
 }
 
@@ -849,48 +870,155 @@ func (s *sim) opReopen() {
 	s.afterRestart("restart", s.m.version, s.m.version)
 }
 
-func (s *sim) opCrash() {
-	pct := []int{0, 50, 100, 25, 75}[s.c.T.Intn(5)]
-	// optionally crash in the middle of a commit: build a block, start Commit, and take the
-	// image while the commit's WAL record is unsynced
-	midCommit := s.c.T.Chance(1, 2)
-	started := s.m.version
-	var pendingState map[string][]byte
-	var pendingRec *blockRec
-	if midCommit {
-		for i := 0; i < 3; i++ {
-			s.opSet()
-		}
-		h := s.m.version + 1
-		br, qc, rec := s.synthBlock(h)
-		s.p.st.IndexQC(qc)
-		s.p.st.IndexBlock(br)
-		for _, d := range rec.ds {
-			s.p.st.IndexDoubleSigner(d.addr, d.height)
-		}
-		pendingState, pendingRec = s.m.view(0), rec
-		if _, err := s.p.st.Commit(); err != nil {
-			s.fail("C09", "commit", "commit-error", "Commit failed without fault: %v", err)
-		}
-		started = h
-		s.c.Probe("crash_right_after_unsynced_commit")
+// modelSnap is a shallow copy of the model's committed history (maps of immutable entries).
+type modelSnap struct {
+	committed map[uint64]map[string][]byte
+	roots     map[uint64][]byte
+	blocks    map[uint64]*blockRec
+	version   uint64
+}
+
+func (m *model) snapshot() *modelSnap {
+	sn := &modelSnap{committed: map[uint64]map[string][]byte{}, roots: map[uint64][]byte{}, blocks: map[uint64]*blockRec{}, version: m.version}
+	for k, v := range m.committed {
+		sn.committed[k] = v
 	}
-	clone := s.p.fs.CrashClone(vfs.CrashCloneCfg{UnsyncedDataPercent: pct, RNG: s.c.T.Sub()})
-	s.c.Fault(fmt.Sprintf("crash_unsynced_%d", pct))
-	s.c.Logf("CRASH unsynced=%d%% at v%d (commit started up to v%d, durable floor v%d)", pct, s.m.version, started, s.durableFloor)
-	// the old process is gone: close its db to stop background goroutines (its disk is discarded)
+	for k, v := range m.roots {
+		sn.roots[k] = v
+	}
+	for k, v := range m.blocks {
+		sn.blocks[k] = v
+	}
+	return sn
+}
+
+func (sn *modelSnap) toModel(h uint64) *model {
+	m := &model{committed: map[uint64]map[string][]byte{}, roots: map[uint64][]byte{}, blocks: map[uint64]*blockRec{}, version: h, stack: []overlay{{}}}
+	for k, v := range sn.committed {
+		if k <= h {
+			m.committed[k] = v
+		}
+	}
+	for k, v := range sn.roots {
+		if k <= h {
+			m.roots[k] = v
+		}
+	}
+	for k, v := range sn.blocks {
+		if k <= h {
+			m.blocks[k] = v
+		}
+	}
+	return m
+}
+
+// verifyImage opens a crash image in a temporary process and checks the all-or-nothing contract
+// against the model; the main timeline is untouched. pre/post are the model before/after the
+// operation during which the image was taken.
+func (s *sim) verifyImage(img crashImage, pre, post *modelSnap, opKind string, floor uint64) {
+	saveP, saveM := s.p, s.m
+	tmp := s.open(img.fs)
+	s.p = tmp
+	defer func() {
+		func() {
+			defer func() { recover() }()
+			tmp.st.Close()
+		}()
+		s.p, s.m = saveP, saveM
+		store.VerifPurgeBlockCache()
+	}()
+	h := tmp.st.Version()
+	started := post.version
+	if pre.version > started {
+		started = pre.version
+	}
+	what := fmt.Sprintf("crash@%s#%d(%s%s)", opKind, img.ordinal, img.kind, tornStr(img))
+	s.c.Check()
+	if h > started {
+		s.fail("C09", "reopen", "height-from-the-future", "%s: reopened at height %d but only heights <= %d were ever committed", what, h, started)
+	}
+	if opKind == "rollback" && post.version < floor {
+		floor = post.version // a rollback deliberately un-does durable heights
+	}
+	if h < floor {
+		s.fail("C09", "reopen", "durable-height-lost", "%s: reopened at height %d below durable floor %d", what, h, floor)
+	}
+	sn := post
+	if _, ok := post.committed[h]; !ok || (opKind == "rollback" && h != post.version) {
+		sn = pre
+	}
+	if _, ok := sn.committed[h]; !ok {
+		s.fail("C09", "reopen", "height-never-committed", "%s: reopened at height %d which was never committed", what, h)
+		return
+	}
+	if h < started {
+		s.c.Probe("crash_image_behind_tip")
+	} else {
+		s.c.Probe("crash_image_at_tip")
+	}
+	s.m = sn.toModel(h)
+	s.afterRestart(what, h, started)
+	// able to continue applying blocks from h
+	k1, k2 := s.pickKeyFixed(int(h)), s.pickKeyFixed(int(h)+1)
+	v1 := []byte(fmt.Sprintf("cont-%d", h))
+	tmp.st.Set(k1, v1)
+	tmp.st.Delete(k2)
+	next := s.m.view(0)
+	next[string(k1)] = v1
+	delete(next, string(k2))
+	br, qc, _ := s.synthBlockPlain(h + 1)
+	tmp.st.IndexQC(qc)
+	tmp.st.IndexBlock(br)
+	root, err := tmp.st.Commit()
+	s.c.Check()
+	if err != nil {
+		s.fail("C09", "continue", "cannot-continue-after-crash", "%s: Commit of height %d on the reopened store failed: %v", what, h+1, err)
+	} else if want := RefRoot(next, 160); !bytes.Equal(root, want) {
+		s.fail("C09", "continue", "wrong-root-after-continue", "%s: continuing from height %d produced root %x, canonical %x", what, h, root, want)
+	}
+}
+
+func tornStr(img crashImage) string {
+	if img.torn >= 0 {
+		return fmt.Sprintf(",%dB", img.torn)
+	}
+	return ""
+}
+
+func (s *sim) pickKeyFixed(i int) []byte { return s.dom.keys[i%len(s.dom.keys)] }
+
+func (s *sim) synthBlockPlain(h uint64) (*lib.BlockResult, *lib.QuorumCertificate, *blockRec) {
+	hash := sha256.Sum256([]byte(fmt.Sprintf("cont-block-%d", h)))
+	hdr := &lib.BlockHeader{Height: h, Hash: hash[:], NetworkId: 1, Time: uint64(h) * 1000, ProposerAddress: bytes.Repeat([]byte{byte(h)}, 20)}
+	qc := &lib.QuorumCertificate{Header: &lib.View{Height: h, NetworkId: 1, ChainId: 1, Phase: lib.Phase_PRECOMMIT_VOTE}, BlockHash: hash[:],
+		ResultsHash: hash[:], ProposerKey: bytes.Repeat([]byte{3}, 48)}
+	return &lib.BlockResult{BlockHeader: hdr}, qc, &blockRec{height: h, hash: hash[:]}
+}
+
+// opCrash: crash faults. Either a crash of the whole process at a quiescent instant (the node
+// restarts from the image and the history continues from there), or crash images taken at
+// file-system operation boundaries (and inside write calls) DURING an operation, each verified
+// in a temporary process.
+func (s *sim) opCrash() {
+	if s.c.T.Chance(1, 3) {
+		s.crashQuiescent()
+		return
+	}
+	s.crashDuringOp()
+}
+
+func (s *sim) crashQuiescent() {
+	pct := []int{0, 100}[s.c.T.Intn(2)]
+	started := s.m.version
+	clone := s.p.cfs.clone(pct)
+	s.c.Fault(fmt.Sprintf("crash_quiescent_unsynced_%d", pct))
+	s.c.Logf("CRASH (quiescent) unsynced=%d%% at v%d (durable floor v%d)", pct, s.m.version, s.durableFloor)
 	old := s.p
 	func() {
 		defer func() { recover() }()
 		old.st.Close()
 	}()
 	s.p = s.open(clone)
-	if midCommit {
-		s.m.committed[started] = pendingState
-		if pendingRec != nil {
-			s.m.blocks[started] = pendingRec
-		}
-	}
 	h := s.p.st.Version()
 	s.c.Check()
 	if h > started {
@@ -902,7 +1030,6 @@ func (s *sim) opCrash() {
 	if h < started {
 		s.c.Probe("crash_lost_acknowledged_heights")
 	}
-	// the model follows the disk: heights above h never happened
 	for v := h + 1; v <= started; v++ {
 		delete(s.m.committed, v)
 		delete(s.m.roots, v)
@@ -914,8 +1041,106 @@ func (s *sim) opCrash() {
 	s.afterRestart("crash", h, started)
 }
 
+func (s *sim) crashDuringOp() {
+	t := s.c.T
+	kind := []string{"commit", "commit-big", "commit-deletes", "dbflush", "compact", "rollback", "close"}[t.Pick(8, 1, 4, 3, 2, 2, 2)]
+	// workload that creates in-flight state for the operation
+	switch kind {
+	case "commit", "commit-deletes":
+		for i := 0; i < 2+t.Intn(4); i++ {
+			s.opSet()
+		}
+		if kind == "commit-deletes" {
+			// delete keys that exist at the previous height
+			prev := s.m.committed[s.m.version]
+			n := 0
+			for _, k := range s.dom.keys {
+				if _, ok := prev[string(k)]; ok && n < 3 {
+					s.p.st.Delete(k)
+					s.m.top()[string(k)] = nil
+					n++
+				}
+			}
+		}
+	case "commit-big":
+		// a write set large enough to exceed any internal batch-size threshold (several MB)
+		for i := 0; i < 5; i++ {
+			k := s.pickKey()
+			v := bytes.Repeat([]byte{byte(s.valCtr)}, 1<<20)
+			s.valCtr++
+			s.p.st.Set(k, v)
+			vv := v
+			s.m.top()[string(k)] = &vv
+		}
+		s.c.Probe("multi_megabyte_commit")
+	case "rollback":
+		if s.m.version < 2 {
+			kind = "commit"
+			s.opSet()
+		}
+	}
+	pct := []int{100, 0}[t.Intn(2)]
+	targets := map[int]int{}
+	if t.Chance(1, 3) || s.c.Tier == "thorough" && t.Chance(1, 2) {
+		for i := 1; i <= 80; i++ {
+			targets[i] = 0
+		}
+		// plus a few torn writes
+		for i := 0; i < 6; i++ {
+			targets[1+t.Intn(30)] = 1 + t.Intn(255)
+		}
+		s.c.Probe("every_fs_op_boundary_enumerated")
+	} else {
+		for i := 0; i < 4; i++ {
+			ord := 1 + t.Intn(24)
+			frac := 0
+			if t.Chance(1, 2) {
+				frac = 1 + t.Intn(255)
+			}
+			targets[ord] = frac
+		}
+	}
+	pre := s.m.snapshot()
+	floor := s.durableFloor
+	cfs := s.p.cfs
+	cfs.arm(targets, pct)
+	switch kind {
+	case "commit", "commit-big", "commit-deletes":
+		s.opCommit()
+	case "dbflush":
+		s.opDBFlush()
+	case "compact":
+		s.opCompact()
+	case "rollback":
+		s.opRollback()
+	case "close":
+		s.opReopen()
+	}
+	if s.c.Bubble {
+		synctest.Wait()
+	}
+	nops, kinds, images := cfs.disarm()
+	post := s.m.snapshot()
+	s.c.Fault("crash_during_" + kind)
+	s.c.Logf("CRASH images during %s: %d mutating fs ops %v, %d images (unsynced=%d%%)", kind, nops, kinds, len(images), pct)
+	for _, img := range images {
+		s.c.Fault("crash_image_" + img.kind)
+		if kind == "close" {
+			// images taken while closing belong to the old process' disk; the reopen already happened
+			s.verifyImage(img, pre, post, kind, floor)
+			continue
+		}
+		s.verifyImage(img, pre, post, kind, floor)
+	}
+}
+
 // afterRestart checks the all-or-nothing contract on a reopened store.
 func (s *sim) afterRestart(what string, h, started uint64) {
+	if strings.HasPrefix(what, "crash") {
+		prev := s.charge
+		s.charge = "C09"
+		defer func() { s.charge = prev }()
+	}
 	// every component reflects exactly height h
 	s.checkFullState(what + "-latest")
 	if h > 0 {
@@ -985,4 +1210,64 @@ func (s *sim) opRollback() {
 	s.p.st.Reset()
 }
 
-func (s *sim) opProof() { s.proofChecks() }
+func (s *sim) opProof() {
+	// proofs are also requested while a block is in flight: pending writes and a speculative
+	// root already computed (the read-only view must still answer for the committed height)
+	if len(s.p.nested) == 0 && len(s.m.stack[0]) > 0 && s.c.T.Chance(1, 3) {
+		if _, err := s.p.st.Root(); err == nil {
+			s.c.Probe("proof_while_speculative_root_cached")
+			s.proofChecks()
+			if s.c.T.Chance(1, 2) {
+				s.opReset()
+			} else {
+				s.opCommit()
+			}
+			return
+		}
+	}
+	s.proofChecks()
+}
+
+// opPendingNested exercises the in-memory merged iterator with keys that are themselves the
+// iteration prefix of other pending keys. Such key sets never reach the versioned store (whose
+// physical layout assumes that no key is a segment-prefix of another, as in the FSM schema):
+// they live only in a nested transaction that is discarded afterwards.
+func (s *sim) opPendingNested() {
+	t := s.c.T
+	s.opBegin()
+	tb := []byte{4}
+	ids := [][]byte{{1}, {1, 2}, {0xFF}, {'a'}}
+	var prefixes [][]byte
+	for i := 0; i < 2; i++ {
+		id := ids[t.Intn(len(ids))]
+		k := lib.JoinLenPrefix(tb, id)
+		prefixes = append(prefixes, k)
+		cands := [][]byte{k, lib.JoinLenPrefix(tb, id, []byte{0}), lib.JoinLenPrefix(tb, id, []byte{7}), lib.JoinLenPrefix(tb, id, []byte{0xFF})}
+		for _, ck := range cands {
+			switch t.Intn(4) {
+			case 0, 1:
+				v := s.newValue()
+				if err := s.p.cur().Set(ck, v); err != nil {
+					s.c.Harnessf("set: %v", err)
+				}
+				vv := v
+				s.m.top()[string(ck)] = &vv
+			case 2:
+				if err := s.p.cur().Delete(ck); err != nil {
+					s.c.Harnessf("delete: %v", err)
+				}
+				s.m.top()[string(ck)] = nil
+			}
+		}
+	}
+	prefixes = append(prefixes, lib.JoinLenPrefix(tb), nil)
+	view := s.m.view(len(s.m.stack) - 1)
+	for _, p := range prefixes {
+		for _, rev := range []bool{false, true} {
+			s.iterCompare(s.p.cur(), view, p, rev, "C10", "iter", "pending-nested-keys")
+		}
+	}
+	s.c.Probe("pending_key_equal_to_iteration_prefix")
+	s.c.Logf("pending nested-key iteration ok (%d pending)", len(s.m.top()))
+	s.opDiscardTxn()
+}
